@@ -313,6 +313,13 @@ def run_certificates(cases):
             if ln.startswith("CHECKED "):
                 cur = byname[ln.split()[1]]
                 cur.certs = []
+                cur.gcode = []          # GenCode.gen_program on the implementation's own automata
+                cur.gswitch = []
+            elif ln.startswith("GCODE ") and cur is not None:
+                cur.gcode.append(ln)
+            elif ln.startswith("GSWITCH ") and cur is not None:
+                p = ln.split()
+                cur.gswitch.append((p[1], int(p[2])))
             elif ln.startswith("CERT ") and cur is not None:
                 p = ln.split()
                 d = {"kind": p[1]}
